@@ -248,6 +248,11 @@ PURE_TEXT_CALLS = ("str_action", "typed_action_call", "print_plain", "print_simp
                    "print_other_domain_simplified", "export")
 
 
+def _bag(x):
+    """a text as the multiset of its tokens: two interpreters may iterate the library's sets in different orders"""
+    return sorted(sexpr.tokens(x)) if isinstance(x, str) else sorted(x)
+
+
 def _baseline_one(job):
     """runs in a freshly spawned interpreter: nothing has been parsed, printed or cached before"""
     text, args, call = job
@@ -319,7 +324,7 @@ def run_history(task):
             problems = []
             base = task.get("baseline") or {}
             for cname, val in ((c1, v1), (c2, v2)):
-                if cname in base and val[0] in ("text", "tokens") and val[1] != base[cname]:
+                if cname in base and val[0] in ("text", "tokens") and _bag(val[1]) != _bag(base[cname]):
                     problems.append(f"{cname} in the history ({c1} ; {c2}) returned another text than as the first call of a fresh "
                                     f"interpreter: {str(val[1])[:120]} vs {str(base[cname])[:120]}")
             if c2 in HISTORY_FREE:
@@ -424,7 +429,7 @@ def replay_history(task, state):
     problems = []
     base = task.get("baseline") or {}
     for cname, val in ((task["c1"], v1), (task["c2"], v2)):
-        if cname in base and val[0] in ("text", "tokens") and val[1] != base[cname]:
+        if cname in base and val[0] in ("text", "tokens") and _bag(val[1]) != _bag(base[cname]):
             problems.append(f"{cname} returned another text than as the first call of a fresh interpreter")
 
     def differ(a, b):
